@@ -64,7 +64,9 @@ def mk(tree, owned, oplist, mirror_=False, budget=None, tag=""):
     ob = Ob("%s%s/%s/%s" % (tag, tname, "owned" if owned else "free", label), "history",
             dict(tree=tree, owned=owned, ops=[[n_, o] for n_, o in oplist], depth=d, mirror=mirror_), allp, pre, budget=budget)
     if tree not in (0, []):
-        ob.pin = tree_pin(tree, ns)[0]
+        bounded = any(nm in ("iadd_s", "shape_ref", "iadd_elem") for nm, _ in oplist)
+        # pinned coordinates leave gaps (0, 2, 4, ...) so that insertions *between* stored elements stay possible, unless an op bounds the shape
+        ob.pin = {k: (v if bounded else 2 * v) for k, v in tree_pin(tree, ns)[0].items()}
     return ob
 
 
@@ -124,6 +126,8 @@ def obligations(tier, mirror_=False, tag=""):
             obs.append(mk(tree, owned, [("setitem_cp", {"pos": n_top(tree) - 1, "via": "tensor"})], mirror_, tag=tag))
     for tree in ([[[1]], [[]]] if tier == "quick" else [[[1]], [[]], [[1, 1]], [[1], [1]]]):
         obs.append(mk(tree, True, [("populate_ref", {})], mirror_, tag=tag))
+    for tree in ([[1], [1]], [[1, 1]], [1, 1], [[0], [0]]):
+        obs.append(mk(tree, True, [("clear_sub", {})], mirror_, tag=tag))
     obs.append(mk([1, 0], True, [("populate_ref", {})], mirror_, tag=tag))
     if tier == "quick" and not mirror_:
         # an inversion early in a 3-fiber followed by an ordered last pair needs at least three stored elements
